@@ -29,6 +29,7 @@ type Doc struct {
 	Cas     uint64 // 0 = not yet known (learned from the next read)
 	Exp     uint32
 	ExpAny  bool // expiry left unspecified by the last write: learned from the next GetExpiry
+	Meta    bool // the current CAS was supplied by the caller (WithMeta), not issued by the clock
 	Rev     uint64
 }
 
@@ -76,6 +77,11 @@ func (d Doc) Canon() string { return d.String() }
 
 type Env struct {
 	MaxDoc int
+	// Named defect switch (known finding KF-C03-resurrection, see DESIGN.md): when set, a
+	// WriteUpdateWithXattrs that resurrects a tombstone is allowed to store its result on a
+	// tombstone version other than the one its callback was shown. Only used to decide
+	// whether a linearizability failure is explained by exactly that recorded defect.
+	AllowUncheckedResurrection bool
 }
 
 type ExpEvent struct {
@@ -167,9 +173,11 @@ func mutated(prev, next Doc, op *Op, r *Res, family string, withEvent bool) Step
 	}
 	if op.Kind == "SetWithMeta" || op.Kind == "DeleteWithMeta" {
 		next.Cas = op.NewCas
+		next.Meta = true
 	} else {
 		next.Cas = newCasOf(r)
-		if next.Cas != 0 && prev.Exists && prev.Cas != 0 && next.Cas <= prev.Cas {
+		next.Meta = false
+		if next.Cas != 0 && prev.Exists && prev.Cas != 0 && !prev.Meta && next.Cas <= prev.Cas {
 			return fail([]string{"C04", "C01"}, "mutation got CAS %d, not above the key's previous CAS %d", next.Cas, prev.Cas)
 		}
 		if r.Cas != 0 && r.NewCas != 0 && r.Cas != r.NewCas {
@@ -883,7 +891,9 @@ func stepXattrWrite(d Doc, op *Op, r *Res, env Env, body string, exp uint32, cas
 			}
 			return fail(t07, "%s reported too-big for %d bytes (limit %d)", op.Kind, sz, env.MaxDoc), true
 		}
-		if sz > env.MaxDoc+slack && r.Err == "" {
+		// (only a call that grows the document is expected to be refused: body-only writes check the
+		// body alone, so a document may already be above the combined limit before this call)
+		if sz > env.MaxDoc+slack && r.Err == "" && sz > xattrSize(d) {
 			return fail(t07, "%s stored %d bytes above the limit %d", op.Kind, sz, env.MaxDoc), true
 		}
 		return StepOut{}, false
@@ -1223,7 +1233,7 @@ func stepWUWX(d Doc, op *Op, r *Res, env Env) StepOut {
 	default:
 		sub.Kind = "WriteWithXattrs"
 	}
-	if r.Err == "" {
+	if r.Err == "" && !(env.AllowUncheckedResurrection && sub.Kind == "WriteResurrectionWithXattrs") {
 		// success: must be on top of exactly the version shown
 		if last.HasBody != d.HasBody || (d.HasBody && string(last.Body) != d.Body) || (d.Exists && d.Cas != 0 && last.Cas != d.Cas) || (!d.Exists && last.Cas != 0) {
 			return fail([]string{"C03"}, "WriteUpdateWithXattrs stored its result although its callback was shown body=%q cas=%d, not the current %s", last.Body, last.Cas, d)
@@ -1325,7 +1335,8 @@ func stepSubdocWrite(d Doc, op *Op, r *Res, env Env) StepOut {
 	}
 	if !d.HasBody {
 		if insert {
-			if r.Err != EMissing {
+			// missing; or, when a CAS was supplied that is not this tombstone's, a CAS mismatch
+			if r.Err != EMissing && !(r.Err == ECas && op.CasArg != 0 && !(d.Exists && op.CasArg == d.Cas)) {
 				return fail(t, "SubdocInsert on %s returned %s", d.State(), orOK(r.Err))
 			}
 			return unchanged(d, "subdoc")
